@@ -26,7 +26,7 @@ def check(tier):
         "registry-layer correspondence (ZI.Registry.setBases/verify/changed vs adapter.py) ",
         stated_not_proved=NOT_PROVED,
         # "exactly the registries CURRENTLY reachable" also when a registry above is re-based while an uncached lookup below is in flight
-        reentry_eps=worldcommon.REENTRY_EPS, reentry_scenarios=("stale-rebase",),
+        reentry_eps=worldcommon.REENTRY_EPS, reentry_scenarios=("stale-rebase", "mixrebase"),
         extra_stream=worldcommon.twin_stream("C06", WORLD_PROFILE, dict(quick=30, thorough=600),
                                              ("lookup", "lookup1", "lookupAll", "names", "qadapter", "subs", "subscribers")))
 
